@@ -29,6 +29,10 @@ extra = {"C08": "yes: downloads after an abandoned earlier transfer on the same 
          "R3C10": "yes: uploads whose overhead grows from the second block on under a tight budget; resuming at a non-zero block with an over-sized block after an abandoned upload",
          "R3C17": "yes: the two unquoting paths are compared at every iterator position, not only on the fresh value",
          "R3C20": "yes: expiry elapsing between intercept_request and intercept_response (slow application); a response pushed through the handler as the first use after expiry",
+         "R4C01": "yes: the header's token-length nibble is builder state of its own in Trace_Wire; driver edits / replaces the header behind set_token's back and calls set_token again",
+         "R4C06": "yes (attribution + driver): a state mismatch after a typed setter is reported under C06; typed episodes concentrate on few numbers so that multi-valued options meet the setters",
+         "R4C09": "yes: bodies with repeated content (constant, periodic, repeated tail) in drivers and model",
+         "R4C12": "yes: the two entry points of an exchange as separate steps with equal message ids on different endpoints (model MODE split, deferred responses in the mixed driver); a disturbed other key is reported under C12 in every branch",
          "C20": "yes: expiry under block-wise traffic on other keys (model `Other` now block-wise; driver scenario `expiry-traffic`)"}
 for d in sorted(glob.glob(os.path.join(ROOT, "seeded", "*", "meta.json"))):
     m = json.load(open(d))
